@@ -3,7 +3,7 @@
 import json,subprocess
 props=[json.loads(l) for l in open('/verif/properties.jsonl')]
 claimed = {
- "C01": ("E-FLOW/E-TABLE key-agreement + effect check of the shard function + snapshot-isolation dataflow + delivery automaton (E-PATH over inlined SSA) + registry edit shapes", "5.C01"),
+ "C01": ("E-FLOW/E-TABLE key-agreement (registry accesses lifted through helpers) + effect check of the shard function + snapshot-isolation dataflow + delivery automaton (E-PATH over inlined SSA: filter evaluated, context polled, claim won before dispatch) + registry edit shapes + no user callback under a bus lock ahead of dispatch", "5.C01"),
  "C02": ("lock-set analysis (guarded-by over inlined SSA supergraph) + read-modify-write region atomicity + write-back provenance", "5.C02"),
  "C03": ("lock-set analysis: guarded-by, callbacks under locks, lock-order graph; who-may-write tables; atomic-only; WaitGroup protocol", "5.C03"),
  "C04": ("typestate automaton (claim/filter/context/dispatch/retire) explored over all paths of the inlined SSA supergraph incl. goroutine fork", "5.C04"),
@@ -12,14 +12,14 @@ claimed = {
  "C07": ("lock-held-at-invocation typestate over all paths incl. panic edges; necessary-condition check for publisher-side sequencing", "5.C07"),
  "C09": ("must-pass-through typestate on PublishContext (persist call ahead of snapshot) + exhaustive path enumeration of the persist function with predicates + provenance of the record fields + lock-region check", "5.C09"),
  "C13": ("exhaustive path enumeration of the loop-free persist function (predicate-classified path classes) + argument provenance + containment checks", "5.C13"),
- "C15": ("value provenance (E-FLOW) from every name sink to the name functions + two-path specification of EventType and its typed helper + types.Implements table", "5.C15"),
+ "C15": ("value provenance (E-FLOW) from every name sink to the name functions + two-path specification of EventType + abstract evaluation of the typed name helper on the shapes of T (interface / TypeNamer / pointer) + types.Implements table + no in-place rewrite of stored events", "5.C15"),
  "C16": ("path enumeration of register (guards dominate insertion) + lock-region atomicity + who-may-write of the graph + structural recursion check + loop termination certificate", "5.C16"),
  "C17": ("return-value provenance of apply + dominance of err==nil over uses of upcast results + shape check of the typed wrapper", "5.C17"),
- "C10": ("E-TABLE conformance (types.Implements) + provenance of Read's next offset and event offsets + format analysis of offsets + DSN provenance + SQL token tables + append-only ownership + sibling agreement", "5.C10"),
- "C11": ("typestate on row loops (Err after Next), path exploration of the range-over-func yield body, loop-exit classification of the paged replay, iterator-protocol typestate with inlining, who-may-call reachability", "5.C11"),
+ "C10": ("E-TABLE conformance (types.Implements) + provenance and path rule for Read's next offset (it is the last returned event's) + format analysis of offsets + DSN provenance + SQL token tables + append-only ownership + sibling agreement by abstract evaluation of the read predicate + fresh decode targets in read loops + error-propagation path rule over the store functions", "5.C10"),
+ "C11": ("typestate on row loops (Err after Next), path exploration of the range-over-func yield body, loop-exit classification of the paged replay, iterator-protocol typestate with inlining, error-propagation path rule (a found error is never returned as nil), next-offset path rule, who-may-call reachability", "5.C11"),
  "C12": ("dominance / reachability checks on SubscribeWithReplay, provenance of saved offsets (E-FLOW), handle-before-save ordering, hand-off mechanism check", "5.C12"),
  "C14": ("acknowledge-after-Exec typestate, SQL/pragma token tables, transaction pairing over all paths, who-may-call for file operations", "5.C14"),
- "C18": ("constant/case exhaustiveness tables, all-path exploration of Apply with the collection applier inlined, string-expression normal form of the key function, lock sets", "5.C18"),
+ "C18": ("operation/control tables decided by evaluating the appliers for every enum constant (and an unknown one), all-path exploration of Apply with the collection applier inlined, string-expression normal form of the key function, fresh decode targets, lock sets", "5.C18"),
  "C19": ("all-path exploration of Apply (decode before mutate), struct-tag and constant tables, instruction-class scan of Apply's call tree, provenance of constructor fields", "5.C19"),
  "C20": ("callback pairing typestate over all paths incl. panic edges, context provenance (E-FLOW), per-path span/counter counting in the otel implementation", "5.C20"),
  "C08": ("context-gate and hook typestate automata over all paths of PublishContext; context provenance (E-FLOW)", "5.C08"),
